@@ -542,7 +542,7 @@ func UnmarshalVectorYAML(value *yaml.Node) (*GeneralizedType, error) {
 		case "length":
 			var length big.Int
 			if err := length.UnmarshalText([]byte(v.Value)); err != nil {
-				return nil, err
+				return nil, parseError(v, "vector length must be an integer")
 			}
 			if length.Sign() < 0 {
 				return nil, parseError(v, "vector length cannot be negative")
@@ -587,6 +587,9 @@ func UnmarshalArrayYAML(value *yaml.Node) (*GeneralizedType, error) {
 
 				if err := v.DecodeWithOptions(&ndims, yaml.DecodeOptions{KnownFields: true}); err != nil {
 					return nil, err
+				}
+				if ndims < 0 || ndims > maxArrayDimensionCount {
+					return nil, parseError(v, "the number of array dimensions must be between 0 and %d", maxArrayDimensionCount)
 				}
 
 				dims := make(ArrayDimensions, ndims)
@@ -863,7 +866,7 @@ func (dimension *ArrayDimension) UnmarshalYAML(value *yaml.Node) error {
 	if value.Tag == "!!int" {
 		var length big.Int
 		if err := length.UnmarshalText([]byte(value.Value)); err != nil {
-			return err
+			return parseError(value, "array dimension length must be an integer")
 		}
 		if length.Sign() < 0 {
 			return parseError(value, "array dimension length cannot be negative")
@@ -980,7 +983,7 @@ func UnmarshalEnumValues(flags bool, value *yaml.Node) (*EnumValues, error) {
 				}
 			} else {
 				if err := val.IntegerValue.UnmarshalText([]byte(v.Value)); err != nil {
-					return nil, err
+					return nil, parseError(v, "enum or flag value must be an integer or empty")
 				}
 			}
 
@@ -991,6 +994,10 @@ func UnmarshalEnumValues(flags bool, value *yaml.Node) (*EnumValues, error) {
 err:
 	return nil, parseError(value, "invalid enum or flag specification")
 }
+
+// Upper bound on the `dimensions: <count>` form of an array, so that a bogus
+// count cannot exhaust memory.
+const maxArrayDimensionCount = 1024
 
 func parseError(node *yaml.Node, message string, args ...any) validation.ValidationError {
 	return validation.ValidationError{
